@@ -49,6 +49,10 @@ type unit struct {
 	mutating map[string]bool
 	// methods of the receiver translated in ANOTHER unit: as a value `r.m` is `recvMethod_m`, as a call `recv_m args`
 	methods map[string]bool
+	// make([]T, n) is an ACTION `goMake_T n` (the primitives may give the new slice an identity), not the value goMakeZeros n
+	makeAction bool
+	// func() T { return <expr with calls> } is defunctionalised like the statement closures, as a VALUE closure (units_fsnew.go)
+	valueClosures bool
 }
 
 var units = map[string]*unit{
@@ -485,6 +489,9 @@ func (t *tr) expr(e ast.Expr) string {
 				}
 				body := t.expr(r.Results[0])
 				t.locals = saved
+				if hasEffect(body) && len(ps) == 0 && t.u.valueClosures {
+					return t.closureV(x)
+				}
 				if hasEffect(body) {
 					bad(e, "closure body has calls")
 				}
@@ -553,6 +560,8 @@ func paren(s string) string {
 func (t *tr) composite(cl *ast.CompositeLit) string {
 	var tname string
 	switch ty := cl.Type.(type) {
+	case *ast.MapType:
+		return t.mapLit(cl)
 	case *ast.Ident:
 		tname = ty.Name
 	case *ast.SelectorExpr:
@@ -642,6 +651,9 @@ func (t *tr) call(c *ast.CallExpr) string {
 				if _, ok := c.Args[0].(*ast.ArrayType); ok {
 					if bl, ok := c.Args[1].(*ast.BasicLit); ok && bl.Value == "0" {
 						return "[]"
+					}
+					if el, isId := c.Args[0].(*ast.ArrayType).Elt.(*ast.Ident); len(c.Args) == 2 && t.u.makeAction && isId {
+						return "(← goMake_" + el.Name + " " + t.atom(c.Args[1]) + ")" // n zero values, allocated now
 					}
 					if len(c.Args) == 2 {
 						return "(goMakeZeros " + t.atom(c.Args[1]) + ")" // n zero values
@@ -954,6 +966,22 @@ func (t *tr) stmt(s ast.Stmt, ind string, out *[]string) {
 				}
 			}
 		}
+		// for i := A; i >= B; i-- { ... } with A, B locals that the body does not assign: A, A-1, …, B
+		if iv, ok := as.Lhs[0].(*ast.Ident); ok {
+			from, isFrom := as.Rhs[0].(*ast.Ident)
+			cond, isCond := x.Cond.(*ast.BinaryExpr)
+			post, isPost := x.Post.(*ast.IncDecStmt)
+			if isFrom && isCond && isPost && post.Tok == token.DEC && cond.Op == token.GEQ && t.locals[from.Name] && src(cond.X) == iv.Name && src(post.X) == iv.Name {
+				if to, ok := cond.Y.(*ast.Ident); ok && t.locals[to.Name] && to.Name != iv.Name {
+					if !writes(x.Body, to.Name) && !writes(x.Body, iv.Name) {
+						t.locals[iv.Name] = true
+						t.emit(out, ind, "for "+lname(iv.Name)+" in goDownFrom "+lname(from.Name)+" "+lname(to.Name)+" do")
+						t.block(x.Body.List, ind+"  ", out)
+						return
+					}
+				}
+			}
+		}
 		iv, ok := as.Lhs[0].(*ast.Ident)
 		if bl, isLit := as.Rhs[0].(*ast.BasicLit); !ok || !isLit || bl.Value != "0" {
 			bad(s, "for-loop init")
@@ -1150,7 +1178,7 @@ func (u *unit) translate(fd *ast.FuncDecl, pkgs, funcs map[string]bool) fnOut {
 		text += "\n"
 	}
 	text += head + "\n" + strings.Join(body, "\n") + "\n"
-	if len(t.lits) > 0 {
+	if len(t.litKeys) > 0 {
 		// running a closure value created by this function
 		text += fmt.Sprintf("\n/-- what running a closure value made by %s does -/\ndef go_%s_apply : Clo → %s Unit\n", fd.Name.Name, fd.Name.Name, u.monad)
 		for i, k := range t.litKeys {
